@@ -528,11 +528,10 @@ func (pc *Parent) runPool(cases []Case) {
 		return
 	}
 	pc.NChunks = nch
+	// strided assignment: heavy kinds of cases (generated together) are spread over all chunks
 	chunks := make([][]Case, nch)
-	for i := 0; i < nch; i++ {
-		lo := i * len(cases) / nch
-		hi := (i + 1) * len(cases) / nch
-		chunks[i] = cases[lo:hi]
+	for i, c := range cases {
+		chunks[i%nch] = append(chunks[i%nch], c)
 	}
 	exe := pc.selfExe
 	if pc.P.Race && pc.raceExe != "" {
